@@ -86,9 +86,16 @@ def rule_H2(ctx: Ctx) -> None:
             return isinstance(ev.ev(node.args[0], env), {"bool": bool, "list": list, "tuple": tuple, "dict": dict, "str": str, "int": int}[X.U(node.args[1])])
         return NotImplemented
 
+    _consts: dict = {}
+
     def name_hook(name, env):
         if name in mod.functions:
             return Closure(mod.functions[name].node, {})
+        if name in mod.assigns:
+            # a module-level constant: folded from its defining expression (literals, type expressions, other constants)
+            if name not in _consts:
+                _consts[name] = Evaluator({"__name__": name_hook}).ev(mod.assigns[name], {})
+            return _consts[name]
         raise Unknown(f"free name `{name}`")
     ek = {"allowed_start": [[1, 2], [3, 4]], "allowed_end": None, "deadend_start": True, "deadend_end": False, "endpoints_not_equal": False, "except_on_no_valid_endpoint": True}
     full = {"name": "<name>", "grid_n": "<grid_n>", "n_mazes": "<n_mazes>", "seed": "<seed>", "applied_filters": "<applied_filters>",
@@ -146,12 +153,14 @@ def rule_H2(ctx: Ctx) -> None:
     df = af.kwarg("deserialize_fn")
     ok = df is not None and X.U(df) == "_load_applied_filters"
     la = ctx.index.func(f"{DS}._load_applied_filters")
-    # abstract evaluation on a symbolic filter history (names deliberately not in alphabetical order, a repeated name, list-valued args):
+    # abstract evaluation on a symbolic filter history (names deliberately not in alphabetical order, a repeated name, a record repeated verbatim, list-valued args):
     # the loader must return the same entries in the same order, args as tuples, kwargs as dicts
     from sa.fold import EvalRaised, Evaluator, Unknown
 
     hist = [{"name": "truncate_count", "args": [5], "kwargs": {}}, {"name": "path_length", "args": [[1, 2], 3], "kwargs": {"min_length": 4}},
-            {"name": "__custom__:f", "args": [], "kwargs": {"k": [1]}}, {"name": "path_length", "args": [7], "kwargs": {}}]
+            {"name": "__custom__:f", "args": [], "kwargs": {"k": [1]}}, {"name": "path_length", "args": [7], "kwargs": {}},
+            # the very same record twice more (a filter applied repeatedly with equal arguments is recorded each time)
+            {"name": "truncate_count", "args": [5], "kwargs": {}}, {"name": "truncate_count", "args": [5], "kwargs": {}}]
     want = [{"name": h_["name"], "args": tuple(h_["args"]), "kwargs": dict(h_["kwargs"])} for h_ in hist]
     import copy as _copy
 
@@ -258,3 +267,8 @@ from sa import exits as _exits_ms  # noqa: E402
 
 RULES.append(Rule("C18.MS", _exits_ms.make_state_rule("C18", "C18.MS", _exits_ms.SCOPES.get("C18", [])), floor=1,
                   doc="no hidden module-level state on the anchored path: results do not depend on the history of the process (E17)"))
+
+from sa import exits as _exits_nw  # noqa: E402
+
+RULES.append(Rule("C18.NW", _exits_nw.make_narrowing_rule("C18", "C18.NW", _exits_nw.SCOPES.get("C18", [])), floor=1,
+                  doc="no new narrowing cast (8/16-bit element types) on the anchored path: coordinates, lengths and indices do not wrap (E18)"))
